@@ -863,7 +863,10 @@ def reduce_axes(a, axis, keepdims, f, dt):
         out = out.reshape(shp)
         return _wrap(out, dt)
     if out.ndim == 0:
-        return out[()]
+        v = out[()]
+        if type(v) in (int, float, bool) and dt.kind in "iufb":
+            return dt.type(v)       # numpy returns numpy scalars (list / np.int64 works, list / int does not)
+        return v
     return _wrap(out, dt)
 
 
